@@ -102,4 +102,35 @@ PROPS = {
     "C07": result_prop("C07",
         "as C01 with collect_x, 70% of the inputs with duplicates (values 0..11); outcomes compared as sorted multisets",
         "C07_collect_x: permutation of the sequential result for every accepted execution; equality in sequential mode."),
+    "C05": result_prop("C05",
+        "as C01 over all full-visit terminals and the find family, sources biased to instrumented by-value iterators (exact and unknown length); oracle: the multiset of (stage, argument) closure invocations of the whole computation equals the sequential one (find family: no invocation more often than in the full sequential evaluation); the source iterator's next() is never entered concurrently (entry/exit flag) and yields every position at most once",
+        "C05_full / C05_short_* prove the event-multiset statements for every chain and accepted execution from the 32 site lemmas; C05_mutex / C05_yield_once prove mutual exclusion and the index contract of the transcribed ticket protocol of the dependency for every interleaving.",
+        extra_tb=["the ticket protocol (lean/OrxPar/Model/Ticket.lean) is a hand transcription of orx-concurrent-iter 1.30.0 implementors/iter.rs, tied to the code only by the run-time re-entrancy monitor; relaxed-memory effects are outside the model",
+                  "parallel kernels are modelled as evaluating every element's stream completely (Par.parLog); that abstraction is tied to the code by the per-case multiset comparison"]),
+    "C09": result_prop("C09",
+        "as C01 with num_threads(1) (usize or enum) inserted at a random place among the source's setters and never overridden, chunk sizes swept; all terminals incl. reduce/fold with the non-associative Poly and the non-commutative Sub operator; oracle: exact std value (by-key: extremal key) and, per stage, the exact std order of closure arguments",
+        "C09_seq_value (all plain terminals, arbitrary operators), C09_context_irrelevant (chunk size / execution irrelevant), C09_stage_order.",
+        nontrivial=nt_len2),
+    "C10": result_prop("C10",
+        "find/first/any/all/find_with_index on chains without eager sites: 1/3 in sequential mode (oracle: each stage evaluated exactly the lazy std prefix), 1/6 over unbounded sources (the input repeats for ever; a 25 s watchdog turns non-termination into a failing case), the rest parallel with 80% under the deterministic scheduler (oracle: after the first matching evaluation — which publishes skip_to_end within the same granted step — no worker evaluates more elements than its chunk size)",
+        "C10_no_pull_after_publication + C10_bounded_work (safety, also for unbounded sources), C10_progress (finite sources), C10_seq (lazy prefix), C10_terminates_fair (fair rounds, unbounded sources)."),
+    "C13": result_prop("C13",
+        "pipelines over owning sources of a drop-observing item type (id + magic number + global live/dropped table): Vec by value (ConIterOfVec), vec::IntoIter (exact size), filtered IntoIter (unknown size); 33 chain shapes covering all 32 sites; terminals collect*/collect_into (non-empty targets)/collect_x/count/reduce/find/first/for_each/min_by_key/max_by_key/any; random params, a third under the deterministic scheduler; oracle after the result is dropped: live = 0 (no leak), bad = 0 (no double drop, no drop of foreign memory)",
+        "C13_merge_ledger / C13_bag_ledger / C13_source_ledger prove linearity of the two unsafe protocols of orx-parallel and of the modelled owning source; everything else is safe Rust and is observed with the canary type.",
+        extra_tb=["cell-level behaviour of Vec / ConcurrentOrderedBag / ConIterOfVec is modelled from reading the dependencies, not verified"],
+        nontrivial=nt_len2),
+    "C14": result_prop("C14",
+        "as C13 with a panic injected at a (stage, argument) the sequential evaluation reaches — every closure of the chain, the for_each closure and the predicate; oracle: the call panics (never returns a value) when the closure fired, bad = 0 (leaks allowed), the process neither aborts nor hangs (watchdog, exit status)",
+        "C14_bag_unwind_no_bad (guarded unwinding drops nothing) with C14_pinned_defect (the pre-fix behaviour provably drops never-initialised cells); propagation is std behaviour (scope/join), modelled and observed.",
+        extra_tb=["std::thread::scope / JoinHandle::join re-raise worker panics: assumed, observed on every case"],
+        nontrivial=nt_len2),
+    "C16": {
+        "modes": [["sweep", "C16", "{seed}", "{tier}"]],
+        "compare": ("eff", "params", "pred", "spec"),
+        "nontrivial": nt_all,
+        "rule": "every one of the 85 chains of <=3 transformations (all 32 sites) on a 50-element source, with and without setters at random positions, Vec / exact / unknown-length sources; closure-call and source-consumption counters are read after the source conversion and after EVERY call; any non-zero increment before the terminal is attributed to its (type, transformation) site: the 8 listed eager sites print KNOWN-FINDING, anything else is a violation; the model's construction-effect counts are compared call by call",
+        "explanation": "C16_lazy: chains avoiding the eager sites have no construction effects (induction over the chain from 24 lazy site lemmas); C16_eager_runs_upstream characterises the 8 eager sites.",
+        "trusted_base": TB_COMMON,
+        "assumptions": ASSUME_COMMON,
+    },
 }
